@@ -70,8 +70,11 @@ class PyFileSearcher(AbstractSearcher):
                 fp.close()
 
             except IOError:
-                raise error.PySmiSearcherError('failure opening compiled file %s: %s' % (f, sys.exc_info()[1]),
-                                               searcher=self)
+                # tells nothing: the source file next to it may be fresh
+                debug.logger & debug.flagSearcher and debug.logger(
+                    'failure opening compiled file %s: %s' % (f, sys.exc_info()[1]))
+                continue
+
             if pyData[:4] == PY_MAGIC_NUMBER and len(pyData) >= 12:
                 pyData = pyData[4:]
                 if sys.version_info[:2] >= (3, 7):
